@@ -117,7 +117,44 @@ def parse_args():
     ap.add_argument("--out", required=True)
     ap.add_argument("--hint")
     ap.add_argument("--replay")
+    ap.add_argument("--shard", type=int, default=-1)
+    ap.add_argument("--nshards", type=int, default=0)
     return ap.parse_args()
+
+
+def run_sharded(script, args, nshards, result_cls_prop):
+    """run `script` as `nshards` worker processes (each with --shard k) and merge their Result files."""
+    procs, outs = [], []
+    for k in range(nshards):
+        o = f"{args.out}.shard{k}"
+        outs.append(o)
+        cmd = [sys.executable, script, "--tier", args.tier, "--seed", str(args.seed), "--mode", args.mode, "--out", o,
+               "--shard", str(k), "--nshards", str(nshards)]
+        if args.hint:
+            cmd += ["--hint", args.hint]
+        procs.append(subprocess.Popen(cmd, stdout=subprocess.PIPE, stderr=subprocess.PIPE, text=True))
+    R = Result(result_cls_prop)
+    errs = []
+    for p, o in zip(procs, outs):
+        so, se = p.communicate()
+        if not os.path.exists(o):
+            errs.append(se[-1500:]); continue
+        d = json.load(open(o)); os.remove(o)
+        R.evaluations += d["evaluations"]
+        R.disagreements += d["disagreements"]
+        R.spec_failures += d["spec_failures"]
+        R.known_confirmed += d["known_confirmed"]
+        cov = d["coverage"]
+        R.samples += cov.get("samples", [])
+        for k, v in cov.get("input_distribution", {}).items():
+            R.hist[k] = R.hist.get(k, 0) + v
+        R.distinct |= set(map(str, cov.get("distinct_keys", [])))
+        R.rule = cov.get("rule", R.rule)
+        R.explanation = d.get("explanation", R.explanation)
+        R.assumptions = d.get("assumptions", R.assumptions)
+    if errs:
+        raise RuntimeError("shard failed: " + errs[0])
+    return R
 
 
 class Result:
@@ -156,6 +193,8 @@ class Result:
     def write(self, path):
         cov = dict(evaluations=self.evaluations, distinct_nontrivial=len(self.distinct), rule=self.rule,
                    samples=self.samples[:8], input_distribution=self.hist, **self.extra)
+        if getattr(self, "export_distinct", False):
+            cov["distinct_keys"] = sorted(map(str, self.distinct))
         json.dump(dict(property=self.prop, evaluations=self.evaluations, disagreements=self.disagreements,
                        spec_failures=self.spec_failures, known_confirmed=sorted(set(self.known_confirmed)),
                        coverage=cov, explanation=self.explanation, assumptions=self.assumptions,
